@@ -9,6 +9,7 @@
 #include "cpu.h"
 #include "log.h"
 #include "value.h"
+#include "verif_hook.h"
 
 #include <new>
 #include <typeinfo>
@@ -130,6 +131,7 @@ public:
      * @param nlv
      */
     void set(link_or_value* const nlv) {
+        YAKUSHIMA_VERIF_YIELD(Y_STORE | Y_CAT_NODE, this);
         /**
          * This object in this function is not accessed concurrently, so it can copy assign.
          */
